@@ -338,8 +338,10 @@ func (c *ctx) check(ns, mode string, element string, prog c08.Prog, class string
 			if lastReply.To != wantTo {
 				fail("addressed", "to", fmt.Sprintf("added reply to=%q, want %q", lastReply.To, wantTo))
 			}
-			// (with a handler that answers from the parsed IQ the one reply is that handler's result)
-			if mode != "q" && (lastReply.Typ != "error" || !lastReply.SU) {
+			// (behind the multiplexer the one reply may be the multiplexer's or a registered
+			// handler's own: the property then only asks for a reply; the session's own is
+			// the service-unavailable error)
+			if mode == "d" && (lastReply.Typ != "error" || !lastReply.SU) {
 				fail("answered-once", "not-service-unavailable", fmt.Sprintf("added reply type=%q su=%v", lastReply.Typ, lastReply.SU))
 			}
 		}
